@@ -41,7 +41,7 @@ def gen_program(item):
     return progen.gen_spec(rng, item['profile'], item.get('n_min', 3), item.get('n_max', 8),
                            fail_p=item.get('fail_p', 0.15), modes=tuple(item.get('modes', ('coro',))),
                            retry_p=item.get('retry_p', 0.3), falsy_p=item.get('falsy_p', 0.15),
-                           cb_p=item.get('cb_p', 0.3))
+                           cb_p=item.get('cb_p', 0.3), hash_fail_p=item.get('hash_fail_p', 0.08))
 
 
 def run_item(item):
